@@ -445,7 +445,10 @@ func report(c *vlib.Ctx, name string, r *schedrv.Run, what string) {
 func main() {
 	c := vlib.Init("C08")
 	defer c.Finish()
-	c.Family("trace", []string{"From Model Require Import C08_AnnounceQueue."}, "trace_case_ok", 25)
+	// trace_both_ok = trace_case_ok (the trace is a run of the C08 model with the observed yield
+	// points, hook log, events, latest) && trace_c01_ok (each finished session's observed hook
+	// calls are what C01's handler.handle model computes for its head and stop, segmented or not)
+	c.Family("trace", []string{"From Model Require Import C08_AnnounceQueue Compose_C08_C01."}, "trace_both_ok", 25)
 	c.Res.Rule = "a case = one schedule (list of decisions: publish / announce / explicit sync / RemoveHandler / run thread t to its next yield point, optionally with a failing sync) executed on the real Subscriber one goroutine at a time; non-trivial = an announcement was replaced while pending, or a goroutine waited for asyncMutex / syncMutex / the semaphore, or syncs of two publishers were open at once"
 	c.Res.Exhaustive = false
 
